@@ -52,6 +52,18 @@ Definition exchange_hash_input (f : family) (r : role) (t : transcript) : result
 
 Definition t_wf (f : family) (r : role) (t : transcript) : bool := forallb field_wf (hash_fields f r t).
 
+(* ---- Transport._check_banner: the identification string kept for the exchange hash ------------ *)
+(* buf[:buf.find(" ")] when there is a space *)
+Fixpoint strip_comment (l : list Z) : list Z :=
+  match l with
+  | [] => []
+  | c :: r => if c =? 32 then [] else c :: strip_comment r
+  end.
+(* line = what packetizer.readline returned (the peer's line without CR LF) *)
+Definition stored_version (line : list Z) : list Z :=
+  match banner_stored with BLine => line | BStripped => strip_comment line end.
+Definition run_banner (line : list Z) : list Z := stored_version line.
+
 (* ---- Transport state touched by the exchange ------------------------------------------------ *)
 Inductive pyval := PInt (z : Z) | PBytes (b : list Z).
 
@@ -123,6 +135,7 @@ Section Crypto.
   Variable sign : Z -> list Z -> list Z.            (* key owner, data *)
   Variable verify : list Z -> list Z -> list Z -> bool.   (* public key blob, data, signature blob *)
   Variable sig_alg_ok : list Z -> bool.   (* the signature blob names the negotiated host key algorithm *)
+  Variable sig_canonical : list Z -> bool.   (* the signature blob is exactly two strings, nothing after them *)
   Variable pubblob : Z -> list Z.                   (* key owner -> public key blob (asbytes) *)
   Variable ec_pub : family -> Z -> list Z.           (* private scalar -> encoded public value *)
   Variable ec_dh : family -> Z -> list Z -> Z.       (* exchange(private, peer public) as an integer *)
@@ -137,7 +150,8 @@ Section Crypto.
         let kb := if verify_key_from_arg then host_key else [] in
         let sb := if verify_sig_from_arg then sig else [] in
         let stored := if verify_stores_key then mkS (s_K st) (s_H st) (s_sid st) (Some kb) else st in
-        if verify_alg_guard && negb (sig_alg_ok sig) then Raise SSHExc
+        if (verify_alg_guard && negb (sig_alg_ok sig)) || (verify_canonical_guard && negb (sig_canonical sig))
+        then Raise SSHExc
         else if verify kb d sb then Ok stored
         else if verify_raises then Raise SSHExc else Ok stored
     | _ => Raise TypeErr
